@@ -19,6 +19,7 @@ priority reported for exactly its current set, and that priority is at most p's 
 import PubgrubProofs.PSInvariant
 import PubgrubProofs.Freshness
 import PubgrubProofs.RangeAnyOrder2
+import PubgrubProofs.Examples
 
 namespace Pubgrub.C14
 open Pubgrub
@@ -97,5 +98,8 @@ theorem C14_range_full (W : World P (Range V) V M) (hW : W.RangesWF) (debug : Bo
   by apply range_C14_full (P := P) (V := V) (M := M) (Pr := Pr) (E := E) <;> assumption
 
 end AnyOrder2
+
+/-! Non-vacuity on concrete runs (PubgrubProofs/Examples.lean, evaluated by `decide +kernel`; registered in
+obligations.json so that their axioms are audited too): `Examples.example_C_qInv`. -/
 
 end Pubgrub.C14
